@@ -78,6 +78,10 @@ AddScaled(a, z, b) ==
 IAddScaled(a, z, b) ==
     /\ CanAdd(T(a), T(b))
     /\ Update(a, OpAddScaled(T(a), z, T(b)), [op |-> "iadd_prefactor_other", a |-> a, b |-> b, z |-> z])
+AddByLabels(a, z, b, inpl) ==
+    /\ CanAddByLabels(T(a), T(b))
+    /\ IF inpl THEN Update(a, OpAddByLabels(T(a), z, T(b)), [op |-> "iadd_by_labels", a |-> a, b |-> b, z |-> z])
+       ELSE Store(OpAddByLabels(T(a), z, T(b)), [op |-> "add_by_labels", a |-> a, b |-> b, z |-> z])
 Scale(s, z) == Store(OpScale(T(s), z), [op |-> "scale", a |-> s, z |-> z])
 IScale(s, z) == Update(s, OpScale(T(s), z), [op |-> "iscale_prefactor", a |-> s, z |-> z])
 Combine(s, g, flip) ==
@@ -157,6 +161,8 @@ ChInner == CanChoose("Inner") /\ \E a, b \in U, dc \in BOOLEAN : CanInner(T(a), 
 ChTrace == CanChoose("Trace") /\ \E s \in U : \E x, y \in 1..R(s) : R(s) >= 3 /\ CanTrace(T(s), x, y) /\ Choose([op |-> "trace", a |-> s, x |-> x, y |-> y])
 ChAdd == CanChoose("Add") /\ \E a, b \in U, z \in Scalars, o \in {"add_scaled", "iadd_prefactor_other"} :
             CanAdd(T(a), T(b)) /\ (o = "iadd_prefactor_other" => Free(a)) /\ Choose([op |-> o, a |-> a, b |-> b, z |-> z])
+ChAddByLabels == CanChoose("AddByLabels") /\ \E a, b \in U, z \in {<<1, 0>>, <<-1, 0>>, <<0, 1>>}, inpl \in BOOLEAN :
+                    CanAddByLabels(T(a), T(b)) /\ (inpl => Free(a)) /\ Choose([op |-> "add_by_labels", a |-> a, b |-> b, z |-> z, inpl |-> inpl])
 ChScale == CanChoose("Scale") /\ \E s \in U, z \in Scalars \cup {<<0, 0>>}, o \in {"scale", "iscale_prefactor"} : (o = "iscale_prefactor" => Free(s)) /\ Choose([op |-> o, a |-> s, z |-> z])
 ChCombine == CanChoose("Combine") /\ \E s \in U : \E k \in 1..3 : k <= R(s) /\ \E g \in InjSeqs(R(s), k), flip \in BOOLEAN :
                 Choose([op |-> "combine_legs", a |-> s, group |-> g, flip |-> flip])
@@ -210,7 +216,7 @@ ChExtend == CanChoose("Extend") /\ \E s, b \in U : \E x \in 1..R(s), y \in 1..R(
 ChAddLeg == CanChoose("AddLeg") /\ \E s, b \in U : R(s) < MaxRank /\ \E y \in 1..R(b), x \in 1..R(s) : \E i \in 0..(IndLen(T(b).legs[y]) - 1) :
                ~IsPipe(T(b).legs[y]) /\ Choose([op |-> "add_leg", a |-> s, b |-> b, y |-> y, i |-> i, x |-> x])
 
-Classes == {"Conj", "Transpose", "Tensordot", "Inner", "Trace", "Add", "Scale", "Combine", "Split", "TakeSlice", "Project", "Permute", "SortLeg", "ScaleAxis", "Concat", "TrivialLeg", "Squeeze", "Gauge", "SetEntry", "Norm", "Combine2", "GetItem", "ScaleItems", "SetItemsFrom", "SwapAxes", "Touch", "Extend", "AddLeg"}
+Classes == {"Conj", "Transpose", "Tensordot", "Inner", "Trace", "Add", "AddByLabels", "Scale", "Combine", "Split", "TakeSlice", "Project", "Permute", "SortLeg", "ScaleAxis", "Concat", "TrivialLeg", "Squeeze", "Gauge", "SetEntry", "Norm", "Combine2", "GetItem", "ScaleItems", "SetItemsFrom", "SwapAxes", "Touch", "Extend", "AddLeg"}
 PickClass == /\ cls = "none" /\ pending = Nil /\ nops < MaxOps
              /\ \E c \in Classes : cls' = c
              /\ UNCHANGED <<pool, used, shared, pending, last, nops, hist>>
@@ -232,6 +238,7 @@ Perform ==
       [] P.op = "trace" -> Trace(P.a, P.x, P.y)
       [] P.op = "add_scaled" -> AddScaled(P.a, P.z, P.b)
       [] P.op = "iadd_prefactor_other" -> IAddScaled(P.a, P.z, P.b)
+      [] P.op = "add_by_labels" -> AddByLabels(P.a, P.z, P.b, P.inpl)
       [] P.op = "scale" -> Scale(P.a, P.z)
       [] P.op = "iscale_prefactor" -> IScale(P.a, P.z)
       [] P.op = "combine_legs" -> Combine(P.a, P.group, P.flip)
@@ -269,7 +276,7 @@ Exec == /\ pending # Nil
         /\ nops' = nops + 1
         /\ hist' = Append(hist, [l |-> last', t |-> IF last'.out = 0 THEN Null ELSE pool'[last'.out], sh |-> shared'])
 
-Next == \/ ChConj \/ ChTranspose \/ ChTensordot \/ ChInner \/ ChTrace \/ ChAdd \/ ChScale \/ ChCombine \/ ChSplit
+Next == \/ ChConj \/ ChTranspose \/ ChTensordot \/ ChInner \/ ChTrace \/ ChAdd \/ ChAddByLabels \/ ChScale \/ ChCombine \/ ChSplit
         \/ ChTakeSlice \/ ChProject \/ ChPermute \/ ChSortLeg \/ ChScaleAxis \/ ChConcat \/ ChTrivialLeg \/ ChSqueeze
         \/ ChGauge \/ ChSetEntry \/ ChNorm \/ ChCombine2 \/ ChGetItem \/ ChScaleItems \/ ChSetItemsFrom \/ ChSwapAxes \/ ChTouch
         \/ ChExtend \/ ChAddLeg \/ PickClass \/ Abandon \/ Exec
